@@ -143,6 +143,36 @@ let run_line line =
     let t = p_ty () in
     let c = { v2 = v2; inline_tn = false; follow = true; flt = []; uuid_sc = dummy_sc } in
     out_res c (describe_input_c c t)
+  | "S" ->
+    (* a sequence of calls on one StateSerializerFactory / in one process:
+         M <pv> <base i-term> <call i-term>   factory.make(...)   (prepared context copied)
+         K <pv> <i-term>                      make_compilation_config_serializer() (fresh context)
+         P <pv> <n> (<name> <req> <ty>)*      describe_params in between
+       results joined by " ; " *)
+    let n = num () in
+    let outs = times n (fun () ->
+      match next () with
+      | "M" ->
+        let v2 = pv_v2 (next ()) in
+        let base = p_ty () in let call = p_ty () in
+        let c = { v2 = v2; inline_tn = false; follow = true; flt = []; uuid_sc = dummy_sc } in
+        out_res c (make_state_c c base call)
+      | "K" ->
+        let v2 = pv_v2 (next ()) in
+        let t = p_ty () in
+        let c = { v2 = v2; inline_tn = false; follow = true; flt = []; uuid_sc = dummy_sc } in
+        out_res c (describe_input_c c t)
+      | "P" ->
+        let v2 = pv_v2 (next ()) in
+        let ps = times (num ()) (fun () -> let n = str () in let r = flag () in let t = p_ty () in ((n, r), t)) in
+        let c = { v2 = v2; inline_tn = false; follow = true; flt = []; uuid_sc = dummy_sc } in
+        (match describe_params_c c ps with
+         | Ok (b, i) when ps = [] -> "ok " ^ hex_or_dash b ^ " " ^ hex_of_bytes i ^ "\t-"
+         | r -> out_res c r)
+      | k -> failwith ("bad call kind " ^ k)) in
+    let rs = List.map (fun o -> List.nth (String.split_on_char '\t' o) 0) outs in
+    let ps = List.map (fun o -> List.nth (String.split_on_char '\t' o) 1) outs in
+    String.concat " ; " rs ^ "\t" ^ String.concat " ; " ps
   | "X" ->
     let v2 = pv_v2 (next ()) in
     let data = bytes_of_hex (next ()) in
